@@ -80,6 +80,39 @@ func (b *Body) call(v ssa.Value, c *ssa.CallCommon, blk *ssa.BasicBlock, reach *
 			}
 		}
 	}
+	// rely/guarantee tier: other requests act before every store / Lightning call
+	if ft.rg {
+		if ft.e.atomicAction(key) && con != nil {
+			b.yield(blk, st)
+			b.callSiteClauses(key, c, sig, args, reach, st, pos)
+			pre := st.clone()
+			b.applyContract(v, con, key, sig, c, args, blk, reach, st, pos)
+			b.guarantee(key, pre, st, reach, pos)
+			return
+		}
+		if fn != nil && fn.Blocks != nil && ft.e.touchesStore(key, con) {
+			// a callee that itself talks to the store: its steps and the other
+			// requests' steps are all within the (transitive) rely; of its
+			// contract only the rg postconditions survive interleaving
+			b.callSiteClauses(key, c, sig, args, reach, st, pos)
+			b.yield(blk, st)
+			pre := st.clone()
+			res := b.callResults(v)
+			if con != nil && len(con.RgEnsures) > 0 {
+				post := b.calleeEnv(con, sig, c.IsInvoke(), args, st, pre)
+				b.bindResults(post, sig, res)
+				for _, e := range con.RgEnsures {
+					if g, err := post.EvalBool(e.Expr); err == nil {
+						ft.fact(Imp(reach, g))
+					} else {
+						ft.shapeFail(e, fmt.Errorf("at call to %s: %v", key, err))
+					}
+				}
+			}
+			ft.trusted["rg tier: "+key+" is abstracted by a yield plus its rg postconditions"] = true
+			return
+		}
+	}
 	// `calls` clauses of the function under verification
 	b.callSiteClauses(key, c, sig, args, reach, st, pos)
 	if (con == nil || key == "reflect.DeepEqual") && b.nativeCall(v, key, c, args, blk, reach, st) {
@@ -932,4 +965,21 @@ func callArgIndex(c *ssa.CallCommon, i int) int {
 		return i
 	}
 	return -1
+}
+
+// guarantee: in the rely/guarantee tier every step of the function under
+// verification must itself be a step the rely clauses allow (G within R).
+func (b *Body) guarantee(key string, pre, post State, reach *T, pos token.Pos) {
+	ft := b.ft
+	for _, cl := range ft.e.contracts.Rely {
+		env := &CEnv{ft: ft, vars: map[string]*CV{}, cur: post, old: pre, pkg: ft.e.pkgOf(cl.Pkg)}
+		g, err := env.EvalBool(cl.Expr)
+		if err != nil {
+			ft.shapeFail(cl, err)
+			continue
+		}
+		name := "guarantee:" + shortKey(key) + "@" + cl.Name
+		name += fmt.Sprintf("#%d", ft.count(name))
+		ft.oblige(&Obligation{Name: name, Kind: "callsite", Tags: unionTags(cl.Tags, ft.allTags()), Guard: reach, Goal: g, Src: "rely " + cl.Src, Pos: ft.pos(pos)})
+	}
 }
